@@ -24,7 +24,9 @@ func init() {
 			c18Specs = append(c18Specs, c18Spec{pairs[i], kind, pairs[i+1], positional})
 		}
 	}
-	add("unequal-length", true, "variants", "msa", "variants-stdin", "msa", "snps", "query", "closest", "query", "closest", "target", "closestn", "target", "list", "query", "toprank", "query", "toprank", "target")
+	for _, k := range []string{"unequal-length-shorter", "unequal-length-longer"} {
+		add(k, true, "variants", "msa", "variants-stdin", "msa", "snps", "query", "closest", "query", "closest", "target", "closestn", "query", "closestn", "target", "list", "query", "toprank", "query", "toprank", "target")
+	}
 	add("non-iupac", true, "variants", "msa", "variants-stdin", "msa", "snps", "query", "closest", "query", "closest", "target", "closestn", "target", "list", "query", "toprank", "query", "toprank", "target")
 	add("non-iupac", false, "snps", "ref", "topa", "ref", "samvar", "ref", "list", "ref", "toprank", "ref")
 	add("missing-file", false, "toma", "sam", "topa", "sam", "topa", "ref", "samvar", "sam", "samvar", "ref", "samvar", "anno", "variants", "msa", "variants", "anno", "snps", "ref", "snps", "query",
@@ -32,8 +34,12 @@ func init() {
 	add("empty-file", false, "toma", "sam", "topa", "sam", "samvar", "sam", "topa", "ref", "samvar", "ref", "variants", "msa", "variants-stdin", "msa", "snps", "ref", "snps", "query",
 		"closest", "query", "closest", "target", "closestn", "query", "closestn", "target", "list", "ref", "list", "query", "toprank", "query", "toprank", "target", "toprank", "ref")
 	add("headerless-sam", false, "toma", "sam", "topa", "sam", "samvar", "sam")
-	add("ref-width", false, "snps", "ref", "list", "ref", "toprank", "ref")
-	add("qt-width", false, "closest", "target", "closest", "query", "closestn", "target")
+	for _, k := range []string{"ref-width-shorter", "ref-width-longer"} {
+		add(k, false, "snps", "ref", "list", "ref", "toprank", "ref")
+	}
+	for _, k := range []string{"qt-width-narrower", "qt-width-wider"} {
+		add(k, false, "closest", "target", "closest", "query", "closestn", "target", "closestn", "query")
+	}
 	add("multi-ref", false, "snps", "ref", "list", "ref", "toprank", "ref", "topa", "ref", "samvar", "ref")
 	add("csv-empty", false, "toprank-csv", "query", "toprank-csv", "target")
 	add("csv-bad-header", false, "toprank-csv", "query", "toprank-csv", "target")
@@ -194,16 +200,16 @@ func runC18(c *fw.Ctx, idx int) fw.Result {
 	mutRec := func(f func(rc *gen.FastaRec)) {
 		recs := append([]gen.FastaRec{}, recsOf[sp.file]...)
 		i := posIndex(len(recs), pos)
-		if sp.file == "msa" && pos == 0 && sp.kind == "unequal-length" {
+		if sp.file == "msa" && pos == 0 && strings.HasPrefix(sp.kind, "unequal-length") {
 			i = 1 // the first *query* row (row 0 is the reference and defines the width)
 		}
 		f(&recs[i])
 		files[sp.file] = gen.RenderFasta(recs, []int{0, 60}[idx%2])
 	}
 	switch sp.kind {
-	case "unequal-length":
+	case "unequal-length-shorter", "unequal-length-longer":
 		mutRec(func(rc *gen.FastaRec) {
-			if idx%2 == 0 && len(rc.Seq) > 1 {
+			if sp.kind == "unequal-length-shorter" && len(rc.Seq) > 1 {
 				rc.Seq = rc.Seq[:len(rc.Seq)-1]
 			} else {
 				rc.Seq += "A"
@@ -227,18 +233,22 @@ func runC18(c *fw.Ctx, idx int) fw.Result {
 			}
 		}
 		files["sam"] = sb.String()
-	case "ref-width":
+	case "ref-width-shorter", "ref-width-longer":
 		rc := b.ref
-		if idx%2 == 0 {
+		if sp.kind == "ref-width-shorter" {
 			rc.Seq = rc.Seq[:len(rc.Seq)-1]
 		} else {
 			rc.Seq += "ACG"
 		}
 		files["ref"] = gen.RenderFasta([]gen.FastaRec{rc}, 0)
-	case "qt-width":
+	case "qt-width-narrower", "qt-width-wider":
 		recs := append([]gen.FastaRec{}, recsOf[sp.file]...)
 		for i := range recs {
-			recs[i].Seq += "AC"
+			if sp.kind == "qt-width-narrower" && len(recs[i].Seq) > 3 {
+				recs[i].Seq = recs[i].Seq[:len(recs[i].Seq)-2]
+			} else {
+				recs[i].Seq += "AC"
+			}
 		}
 		files[sp.file] = gen.RenderFasta(recs, 0)
 	case "multi-ref":
